@@ -328,7 +328,7 @@ def encode_outcome(rng, place):
     r = rng.random()
     if r < 0.12 and place == sorted(place) and len(set(place)) == n:
         return {}  # omitted: input order is the outcome
-    mode = rng.choice(["int", "int", "float", "mixed", "neg", "big", "bool"])
+    mode = rng.choice(["int", "int", "float", "floatint", "mixed", "neg", "big", "bool"])
     if mode == "bool" and max(place) > 1:
         mode = "int"
     vals = sorted(set(place))
@@ -336,6 +336,11 @@ def encode_outcome(rng, place):
         step = rng.choice([1, 1, 2, 7])
         base = rng.choice([0, 0, 1, -3])
         m = {v: base + step * i for i, v in enumerate(vals)}
+    elif mode == "floatint":
+        # the same values an "int" encoding would use, as floats: (1, 1, 2) == (1.0, 1.0, 2.0)
+        step = rng.choice([1, 1, 2, 7])
+        base = rng.choice([0, 0, 1, -3])
+        m = {v: float(base + step * i) for i, v in enumerate(vals)}
     elif mode == "float":
         base = rng.choice([0.0, 0.5, -2.25])
         m = {v: base + 1.5 * i for i, v in enumerate(vals)}
